@@ -10,6 +10,8 @@ From RopeVerif.C13 Require Import Observer.
 
 Inductive ckind :=
 | KStep (o : op) (ans : option answer)
+| KPendX (x : xop)          (* one change behind rope's back, no validate yet (queries may follow) *)
+| KValidate (f : list N)    (* project.validate(f) after such a phase *)
 | KFree.
 
 Record case := { c_pre : state; c_kind : ckind; c_post : state }.
@@ -49,6 +51,8 @@ Definition run_case (c : case) : N :=
       if negb (N.eqb d 0) then d
       else match ans with Some a' => if bool_decide (a = a') then 0%N else 6%N | None => 0%N end
   | KStep o _ => state_diff (step (c_pre c) o) (c_post c)
+  | KPendX x => state_diff (xstep (c_pre c) x) (c_post c)
+  | KValidate f => state_diff (validate_in f (c_pre c)) (c_post c)
   | KFree => if bool_decide (dview (c_pre c) = dview (c_post c)) then 0%N else 7%N
   end.
 
@@ -71,6 +75,8 @@ Definition flags (c : case) : N :=
            | OQuery q => b2n (bool_decide ((run_query (c_pre c) q).2 = (run_query (fresh (c_pre c)) q).2)) 32
            | _ => 0
            end
+     | KPendX x => 16 + b2n (bool_decide (x_sound (c_pre c) x)) 128
+     | KValidate _ => 16 + 128
      | KFree => 16 + 128
      end)%N.
 
